@@ -445,7 +445,7 @@ func runStorageLog(a *Analyzer, r *Results) {
 // is taken out only by the event loop that acts on it, or by the producer's "make room for the newer value" receive
 // that is followed by its own send. Any other receive silently discards the newest sync / trigger / message.
 func runConsumers(a *Analyzer, r *Results) {
-	inbound := map[string]bool{"leanhelix.blockWithProof": true, "interfaces.ElectionTrigger": true, "interfaces.ConsensusRawMessage": true}
+	inbound := map[string]bool{syncMsgType: true, "interfaces.ElectionTrigger": true, "interfaces.ConsensusRawMessage": true}
 	n := 0
 	for _, op := range a.chanOps() {
 		f := op.fn
